@@ -88,7 +88,6 @@ Proof.
 Qed.
 
 (** the row of a name-path object (no arguments): such an object never receives siblings *)
-Definition npIdx : N := match opcodeTableIndex aml_pOpIntNamePath true with Some i => i | None => 0 end.
 Definition tgt (s : pstate) (target : N) : Prop := exists o, tget (p_tree s) target = Some o /\ o_infoIndex o <> npIdx.
 
 Lemma tgt_pframe s (t2 : T) target : tgt s target -> pframe (p_tree s) t2 -> tgt (with_tree s t2) target.
